@@ -56,6 +56,11 @@ func init() {
 		"errors.Is":                  stubErrorsIs,
 		"errors.As":                  stubErrorsAs,
 		"net/netip.AddrFromSlice":    stubAddrFromSlice,
+		"(net/netip.Addr).BitLen":    stubAddrBitLen,
+		"(net/netip.Addr).Is4":       stubNondetBool,
+		"(net/netip.Addr).Is6":       stubNondetBool,
+		"(net/netip.Addr).IsValid":   stubNondetBool,
+		"(net/netip.Addr).String":    stubOpaqueStr,
 		"strings.Contains":           stubStringsContains,
 		"strings.Index":              stubStringsIndex,
 		"strings.HasPrefix":          nil,
@@ -444,4 +449,15 @@ func stubAddrFromSlice(it *Interp, fr *frame, fn *ssa.Function, args []Value, si
 	n := it.sliceLen(sl)
 	ok := it.tt.BOr(it.tt.Eq(n, it.tt.Const(64, 4)), it.tt.Eq(n, it.tt.Const(64, 16)))
 	return TupleV{it.zero(fn.Signature.Results().At(0).Type()), ok}
+}
+
+// nondeterministic boolean: the modelled value is opaque, both answers are explored
+func stubNondetBool(it *Interp, fr *frame, fn *ssa.Function, args []Value, site ssa.Instruction) Value {
+	return it.tt.Var(it.freshName("nondet."+fn.Name()), 0)
+}
+
+func stubAddrBitLen(it *Interp, fr *frame, fn *ssa.Function, args []Value, site ssa.Instruction) Value {
+	a := it.tt.Var(it.freshName("nondet.BitLen.is4"), 0)
+	b := it.tt.Var(it.freshName("nondet.BitLen.is6"), 0)
+	return it.tt.Ite(a, it.tt.Const(64, 32), it.tt.Ite(b, it.tt.Const(64, 128), it.tt.Const(64, 0)))
 }
